@@ -367,3 +367,87 @@ func refSpcDigest(contentOctets []byte) (asn1.ObjectIdentifier, []byte, error) {
 	}
 	return oid, dig, nil
 }
+
+// ---- a foreign signer: SignedData as other tools write it ----
+
+func derTLV(class, tag int, compound bool, content []byte) []byte {
+	b, err := asn1.Marshal(asn1.RawValue{Class: class, Tag: tag, IsCompound: compound, Bytes: content})
+	if err != nil {
+		harnessf("der: %v", err)
+	}
+	return b
+}
+
+func derCat(parts ...[]byte) []byte {
+	var out []byte
+	for _, p := range parts {
+		out = append(out, p...)
+	}
+	return out
+}
+
+func derSeq(parts ...[]byte) []byte {
+	return derTLV(asn1.ClassUniversal, asn1.TagSequence, true, derCat(parts...))
+}
+func derSet(parts ...[]byte) []byte {
+	return derTLV(asn1.ClassUniversal, asn1.TagSet, true, derCat(parts...))
+}
+func derAny(v any) []byte {
+	b, err := asn1.Marshal(v)
+	if err != nil {
+		harnessf("der: %v", err)
+	}
+	return b
+}
+
+var (
+	oidSpcSpOpusInfo    = asn1.ObjectIdentifier{1, 3, 6, 1, 4, 1, 311, 2, 1, 12}
+	oidSpcStatementType = asn1.ObjectIdentifier{1, 3, 6, 1, 4, 1, 311, 2, 1, 11}
+	oidSpcIndividual    = asn1.ObjectIdentifier{1, 3, 6, 1, 4, 1, 311, 2, 1, 21}
+	oidSMIMECaps        = asn1.ObjectIdentifier{1, 2, 840, 113549, 1, 9, 15}
+)
+
+// refForeignAttrs are authenticated attributes other signers add besides contentType, signingTime and messageDigest:
+// osslsigncode's SpcSpOpusInfo and SpcStatementType, OpenSSL's S/MIME capabilities.
+func refForeignAttrs(n int) [][]byte {
+	all := [][]byte{
+		derSeq(derAny(oidSpcSpOpusInfo), derSet(derSeq())),
+		derSeq(derAny(oidSpcStatementType), derSet(derSeq(derAny(oidSpcIndividual)))),
+		derSeq(derAny(oidSMIMECaps), derSet(derSeq(derSeq(derAny(asn1.ObjectIdentifier{2, 16, 840, 1, 101, 3, 4, 1, 42})), derSeq(derAny(asn1.ObjectIdentifier{1, 2, 840, 113549, 3, 7}))))),
+	}
+	return all[:n]
+}
+
+// refCMSForeign builds a ContentInfo/SignedData over the encapsulated content of `like` (or, when `like` is detached, over `detached`) (a SignedData some other signer
+// produced: its eContentType and content are taken over unchanged), signed by pk at instant `at`, with the signed
+// attributes contentType, signingTime, messageDigest followed by `extra` (complete Attribute elements). Written from
+// RFC 2315 section 9; shares nothing with the library's writer.
+func refCMSForeign(like *RefCMS, detached []byte, pk *PoolKey, at time.Time, extra [][]byte) []byte {
+	md := sha256.Sum256(detached)
+	if like.HasContent {
+		md = sha256.Sum256(like.ContentOctet)
+	}
+	algSHA := derSeq(derAny(oidSHA256), derTLV(asn1.ClassUniversal, asn1.TagNull, false, nil))
+	algRSA := derSeq(derAny(oidRSA), derTLV(asn1.ClassUniversal, asn1.TagNull, false, nil))
+	utc := derTLV(asn1.ClassUniversal, asn1.TagUTCTime, false, []byte(at.UTC().Format("060102150405Z")))
+	attrs := [][]byte{
+		derSeq(derAny(oidAttrCType), derSet(derAny(like.EContentType))),
+		derSeq(derAny(oidAttrSignTime), derSet(utc)),
+		derSeq(derAny(oidAttrDigest), derSet(derAny(md[:]))),
+	}
+	attrs = append(attrs, extra...)
+	content := derCat(attrs...)
+	signedOver := sha256.Sum256(derTLV(asn1.ClassUniversal, asn1.TagSet, true, content))
+	sig, err := rsa.SignPKCS1v15(nil, pk.Key, crypto.SHA256, signedOver[:])
+	if err != nil {
+		harnessf("refCMSForeign: %v", err)
+	}
+	si := derSeq(derAny(1), derSeq(pk.Cert.RawIssuer, derAny(pk.Cert.SerialNumber)), algSHA,
+		derTLV(asn1.ClassContextSpecific, 0, true, content), algRSA, derAny(sig))
+	ci := derSeq(derAny(like.EContentType))
+	if like.HasContent {
+		ci = derSeq(derAny(like.EContentType), derTLV(asn1.ClassContextSpecific, 0, true, like.ContentFull))
+	}
+	sd := derSeq(derAny(1), derSet(algSHA), ci, derTLV(asn1.ClassContextSpecific, 0, true, pk.CertDER), derSet(si))
+	return derSeq(derAny(oidSignedData), derTLV(asn1.ClassContextSpecific, 0, true, sd))
+}
